@@ -850,7 +850,7 @@ FACTORS_NEAR = [0.5, 1 - 1e-6, 1.0, 1 + 1e-6, 2.0, 0.999, 1.001, 1.0, 1.0]
 
 def student_variant(rng, kind, ans, tol, exact, samples_hint, fams=None):
     """returns (family, student tree, tolerance)"""
-    fam = rng.choice(fams or ['delta', 'delta', 'scale', 'scale', 'branch', 'rewrite', 'rewrite', 'same'])
+    fam = rng.choice(fams or ['delta', 'delta', 'scale', 'scale', 'branch', 'rewrite', 'rewrite', 'same', 'imag', 'imag'])
     base = 'real' if kind == 'numerical' else kind
     if fam == 'delta':
         mk, nrm = rng.choice(DELTA_SHAPES[base])
@@ -871,6 +871,22 @@ def student_variant(rng, kind, ans, tol, exact, samples_hint, fams=None):
         if rng.random() < 0.3:
             return fam, ('sub', ans, mk(k)), tol
         return fam, ('add', ans, mk(k)), tol
+    if fam == 'imag':
+        # a purely IMAGINARY offset or factor on the author's value (real or not): answer + c*i*unit, answer*(1 + eps*i)
+        facs = [0.5, 1.0, 1.0, 2.0, 1.5, 4.0] if exact else FACTORS_NEAR + [3.0, 10.0]
+        if rng.random() < 0.5:
+            mk, nrm = rng.choice(DELTA_SHAPES[base])
+            if tol[0] == 'abs' and tol[1] != 0:
+                target = Fraction(tol[1])
+            else:
+                target = Fraction(rng.choice([1, 2, 0.5, 25]))
+            k = float(target / nrm(1)) * rng.choice(facs)
+            return fam, ('add', ans, ('mul', mk(k), ('i',))), tol
+        if tol[0] == 'pct':
+            p = float(Fraction(float(tol[1].strip()[:-1])) / 100) or 0.25
+        else:
+            p = rng.choice([0.5, 0.25, 1.0, 3.0])
+        return fam, ('mul', ans, ('add', N(1), ('mul', N(p * rng.choice(facs)), ('i',)))), tol
     if fam == 'scale':
         if tol[0] == 'pct':
             p = float(tol[1].strip()[:-1]) / 100 if not exact else float(Fraction(float(tol[1].strip()[:-1])) / 100)
@@ -1055,9 +1071,9 @@ def make_session(rng, exact):
     base['failable'] = rng.choice([0, 1, 1, 2, 2, base['n'] - 1])
     tol = tuple(base['tol'])
     subs = [{'student': base['student'], 'family': base['family'], 'style': base['style']}]
-    fams = ['delta', 'scale', 'scale', 'branch', 'branch', 'branch', 'rewrite', 'same']
+    fams = ['delta', 'scale', 'scale', 'branch', 'branch', 'branch', 'rewrite', 'same', 'imag']
     if base['kind'] in ('func', 'const'):
-        fams = ['delta', 'scale', 'scale', 'rewrite', 'same']
+        fams = ['delta', 'scale', 'scale', 'rewrite', 'same', 'imag']
     mk, _ = DELTA_SHAPES[base['vkind']][0]
     for _ in range(rng.randint(3, 6)):
         if rng.random() < 0.6:
@@ -1180,6 +1196,15 @@ def corpus():
     # percentage of the Frobenius norm of the expected array: A = [1,2,2] (norm 3), [0,3,4] (norm 5); offset norm 3 and 5
     for p in ('100%', '99%', '101%', '60%'):
         add('vector', X('A'), ('add', X('A'), ('vec', [N(0), N(0), N(3)])), ('pct', p), sv, 2, 1, 'delta')
+    # imaginary perturbations of REAL author values: a miss at every sample, whatever the student's real part
+    I = ('i',)
+    for t in (('abs', 1), ('abs', 24), ('abs', 25), ('abs', 26), ('pct', '5%'), ('pct', '300%')):
+        add('real', xy, ('add', xy, ('mul', N(25), I)), t, s5, 5, 0, 'imag')
+        add('real', xy, ('mul', xy, ('add', N(1), ('mul', N(3), I))), t, s5, 5, 1, 'imag')
+        add('numerical', N(3.5), ('add', N(3.5), ('mul', N(2), I)), t, {}, 1, 0, 'imag')
+    for t in (('abs', 1), ('abs', 2), ('abs', 3), ('pct', '1%')):
+        add('vector', va, ('add', va, ('vec', [I, ('mul', N(2), I), N(0)])), t, sv, 2, 0, 'imag')   # offset norm sqrt(5)
+        add('matrix', ab, ('add', ab, ('mul', ('mat', [[N(3), N(0)], [N(0), N(4)]]), I)), ('abs', 5 if t[0] == 'pct' else t[1] + 3), sa, 2, 0, 'imag')
     # answers that depend on sampled functions only: f differs from sample to sample, so author and student must be
     # evaluated with the SAME sampled function at every sample
     fa = ('sub', F('f', N(1)), F('f', N(0)))
@@ -1291,7 +1316,7 @@ def run_graders(ctx, res, rng):
                 continue
             terms.append(term)
             metas.append((case, obs))
-            if want is not None and 0 < classes.count('fail') + classes.count('band') < len(classes) or case['family'] in ('delta', 'scale'):
+            if want is not None and 0 < classes.count('fail') + classes.count('band') < len(classes) or case['family'] in ('delta', 'scale', 'imag'):
                 res.nontrivial.add(case_key(case))
     res.distribution['grader_cases_by_kind/family/tolerance'] = dist
     res.distribution['oracle_verdicts'] = verd
